@@ -112,6 +112,31 @@ theorem live_only_reachable (sch : Schema) (hok : SchemaOk sch) (ops : List Op) 
     ∀ i x y, y ∈ ((run sch ops).links i).src x → live (run sch ops) x ∧ live (run sch ops) y :=
   (all_invariants_reachable sch hok ops hd).liveOnly
 
+/-- each referential attribute reads as the identifying attribute of the linked instance and as unset when
+    unlinked (one formalising association); a class's own id reads as the stored id; a referential attribute
+    shared by two associations reads through whichever is linked, the later definition first -/
+theorem referential_reads (sch : Schema) (at_ : Attrs) (s : State) (f : Nat) (x : Inst) (name pk : String) (i : Nat)
+    (h : formalFrom (s.kindOf x) name 0 sch = [(i, pk)]) :
+    getAttr sch at_ s (f + 2) x name =
+      match ((s.links i).tgt x).head? with
+      | some other => getAttr sch at_ s f other pk
+      | none => none := getAttr_single sch at_ s f x name pk i h
+
+theorem own_id_reads (sch : Schema) (at_ : Attrs) (s : State) (f : Nat) (x : Inst) (name : String)
+    (h : formalFrom (s.kindOf x) name 0 sch = []) :
+    getAttr sch at_ s (f + 1) x name = if at_.idName (s.kindOf x) = some name then some (s.idOf x) else none :=
+  getAttr_own sch at_ s f x name h
+
+theorem shared_referential_reads (sch : Schema) (at_ : Attrs) (s : State) (f : Nat) (x : Inst) (name pk1 pk2 : String)
+    (i1 i2 : Nat) (h : formalFrom (s.kindOf x) name 0 sch = [(i1, pk1), (i2, pk2)]) :
+    getAttr sch at_ s (f + 3) x name =
+      match ((s.links i2).tgt x).head? with
+      | some other => getAttr sch at_ s (f + 1) other pk2
+      | none =>
+        match ((s.links i1).tgt x).head? with
+        | some other => getAttr sch at_ s f other pk1
+        | none => none := getAttr_shared sch at_ s f x name pk1 pk2 i1 i2 h
+
 /-! non-vacuity: a concrete history over a 1:1 schema reaches a state with one link; the rejected relate
     of a second partner returns RelateException and leaves that state unchanged -/
 def sch11 : Schema :=
